@@ -113,18 +113,15 @@ func checkC04(c *Ctx) {
 		if !c.Anchor("R4.6", "zapcore."+t.typ+"."+t.m, fn != nil) {
 			continue
 		}
-		var inner *ssa.Call
-		for _, cl := range Calls(fn) {
-			if IsCallTo(cl, t.inner, "(go.uber.org/zap/zapcore.WriteSyncer).Write") && cl.Common().IsInvoke() && cl.Common().Method.Name() == t.m {
-				inner, _ = cl.(*ssa.Call)
-			}
+		tt := t
+		ok, why, inner, _ := VisitsAll(fn, func(cl ssa.CallInstruction) bool {
+			return IsCallTo(cl, tt.inner, "(go.uber.org/zap/zapcore.WriteSyncer).Write") && cl.Common().IsInvoke() && cl.Common().Method.Name() == tt.m
+		}, fn.Params[0])
+		pos := fn.Pos()
+		if inner != nil {
+			pos = inner.Pos()
 		}
-		if inner == nil {
-			c.Bad("R4.6", fn.String(), "visits-all", fn.Pos(), "no delegating call found")
-			continue
-		}
-		ok, over, why := LoopVisitsAll(fn, inner)
-		c.Check(ok && over == fn.Params[0].Name(), "R4.6", fn.String(), "visits-all", inner.Pos(), "%s reaches every branch (range over %s, no early exit) %s", t.m, over, why)
+		c.Check(ok, "R4.6", fn.String(), "visits-all", pos, "%s reaches every branch of %s (loop over the whole collection, no early exit) %s", t.m, fn.Params[0].Name(), why)
 	}
 	// R4.7
 	{
